@@ -273,6 +273,17 @@ Definition py_run (d : py_def) (t0 pos0 : Z) (ops : list py_op) : py_res py_wr :
   if py_div_ok d then py_bind (py_do_all d ops (py_init t0 pos0)) (py_close d)
   else PyErr (PE_Fault PF_DivZero).
 
+(* specification-level view of a program: the blocks handed to wr_data as (sample count,
+   effectively omitted); the first block is always stored (data_head.offset = 0) *)
+Fixpoint py_blocks_from (started : bool) (ops : list py_op) : list (Z * bool) :=
+  match ops with
+  | [] => []
+  | PyBlk n req :: r => (n, req && started) :: py_blocks_from true r
+  | PySkip _ :: r => py_blocks_from started r
+  end.
+Definition py_blocks (ops : list py_op) : list (Z * bool) := py_blocks_from false ops.
+Definition py_total (blks : list (Z * bool)) : Z := fold_right (fun b acc => fst b + acc) 0 blks.
+
 (* the omit register: jls_wr_fsr_omit_data and the shift at the end of wr_data (uint8) *)
 Definition py_reg_enable (r : Z) (en : bool) : Z := if en then Z.lor r 1 else 0.
 Definition py_reg_shift (r : Z) : Z := (Z.lor (Z.shiftl r 1) (Z.land r 1)) mod 256.
